@@ -284,6 +284,12 @@ impl PartialEq for Trk1 {
     }
 }
 
+/// A zero-sized registered type with alignment 8: it occupies no bytes but still decides the
+/// alignment (and with it the size and the payload offsets) of every enum and record around it.
+#[repr(align(8))]
+#[derive(Clone, Copy, Debug, PartialEq)]
+pub struct Za8;
+
 /// A small `Copy` registered type (4 bytes).
 #[derive(Clone, Copy, Debug, PartialEq)]
 pub struct Cp(pub u32);
@@ -406,6 +412,8 @@ pub fn runtime() -> Runtime<NoCtx> {
         #[clone] type Trk1 = Val<Trk1>;
         /// small copy type
         #[copy] type Cp = Val<Cp>;
+        /// zero-sized, alignment 8
+        #[copy] type Za8 = Val<Za8>;
 
         fn mk(tag: i64) -> Val<Trk> {
             lp!("mk", vec![V::Int(IntTy::I64, tag as i128)]);
@@ -474,6 +482,21 @@ pub fn runtime() -> Runtime<NoCtx> {
             lp!("in_opt_str", vec![V::Int(IntTy::U32, k as i128)]);
             let w = word(k);
             if w & 1 == 1 { Some(RotoString::from(conv::str_of(w >> 1))) } else { None }
+        }
+        /// how far the list is from being a permutation of 1..=n (0 = it is one): the snapshot
+        /// is taken with `List::to_vec`, i.e. by the host while scripts on other threads use the list
+        fn perm_defect(l: List<u64>, n: u64) -> u64 {
+            let v = l.to_vec();
+            let mut seen = vec![0u32; n as usize + 1];
+            let mut bad = 0u64;
+            for x in &v {
+                if *x >= 1 && *x <= n {
+                    seen[*x as usize] += 1;
+                } else {
+                    bad += 1;
+                }
+            }
+            bad + seen[1..].iter().filter(|c| **c != 1).count() as u64 + (v.len() as u64 != n) as u64
         }
         fn out_list_i32(x: List<i32>) {
             let v: Vec<V> = x.to_vec().into_iter().map(|e| V::Int(IntTy::I32, e as i128)).collect();
